@@ -217,8 +217,8 @@ pub fn col_is_plain(c: &ColSpec) -> bool {
             if c.category.is_some() || !c.enums.is_empty() {
                 return false;
             }
-            if let Some((a, _)) = c.range {
-                if a < -0x7fff_ffff {
+            if let Some((a, b)) = c.range {
+                if a < -0x7fff_ffff || b < -0x7fff_ffff {
                     return false;
                 }
             }
@@ -234,11 +234,10 @@ pub fn col_is_plain(c: &ColSpec) -> bool {
             }
             if !c.enums.is_empty() {
                 let joined = c.enums.join(";");
-                let back: Vec<&str> = joined.split(';').collect();
-                if joined.is_empty()
+                // an empty value or one with the separator may be refused
+                // (or must survive exactly): the model does not predict it
+                if c.enums.iter().any(|e| e.is_empty() || e.contains(';'))
                     || joined.chars().count() > 255
-                    || back.len() != c.enums.len()
-                    || back.iter().zip(c.enums.iter()).any(|(a, b)| a != b)
                     || !joined.is_ascii()
                 {
                     return false;
